@@ -47,6 +47,11 @@ def run(ctx):
         except ValueError:
             ctx.count("table_rejected")
             continue
+        if rng.random() < 0.4:
+            # the first call after the switch is a decode, not a strict encode
+            call_guard(lambda: sf.decoder(rng.choice(["[C][S][=O][P][F]", "[N][Cl][Br][I][B]", "[Fe][Xe][Si][Se][As]", "[C][=C][#N]"])),
+                       expected=(sf.DecoderError,))
+            ctx.count("decode_first_after_switch")
         gen_table = {k: v + rng.choice([0, 0, 1, 1, 2]) for k, v in table.items()}
         aromatic = rng.random() < 0.08
         P = set()
